@@ -16,6 +16,7 @@ import (
 	"github.com/go-git/go-git/v6/plumbing/format/objfile"
 	"github.com/go-git/go-git/v6/plumbing/format/packfile"
 	"github.com/go-git/go-git/v6/plumbing/format/revfile"
+	plumbhash "github.com/go-git/go-git/v6/plumbing/hash"
 )
 
 // PackWriter is a io.Writer that generates the packfile index simultaneously,
@@ -143,7 +144,7 @@ func (w *PackWriter) clean() error {
 func (w *PackWriter) save() error {
 	base := w.fs.Join(objectsPath, packPath, fmt.Sprintf("pack-%s", w.checksum))
 
-	h := crypto.SHA1.New()
+	h := plumbhash.New(crypto.SHA1)
 	if w.checksum.Size() == crypto.SHA256.Size() {
 		h = crypto.SHA256.New()
 	}
